@@ -812,3 +812,12 @@ def _native_fas(g, fn, a):
 
 
 cfs.native_entry = _native_fas
+
+
+ASSUMPTIONS = [
+    "C09: statement lists in the shapes have concrete lengths (For body 1..3, If body 1..2 / orelse 0..2, procedure body "
+    "1..3, call graph: 0..2 callees per procedure); depth and the content of every child statement are unbounded "
+    "(schematic children + induction hypothesis)",
+    "C09: every way to generated C goes through compile_to_strings (run_compile, Procedure.compile_c / c_code_str call it)",
+    "C09: a procedure reached only through an instruction (instr) body is not compiled, hence not analysed",
+]
